@@ -1,25 +1,31 @@
 """C38 — non-contact force elements follow their documented laws (DESIGN.md §5 C38)."""
+# the table of dependsOnlyOnPositions() x parameter allocation stages is the shared translator output of DESIGN §2.4
+# (Gen/ForceParams.lean, generator owned by checks/C16.py); it is regenerated from the current source on every run
+from checks.C16 import gen_force_params
 SPEC = dict(
     prop="C38",
     proof_module="SimbodyProofs.C38",
     harness="ForceLaws",
-    sources=["SimbodyModel/Proto.lean", "SimbodyModel/ForceLaws.lean", "SimbodyModel/ForceLawsDriver.lean",
+    gen=gen_force_params,
+    sources=["SimbodyModel/Proto.lean", "SimbodyModel/Gen/ForceParams.lean", "SimbodyModel/ForceLaws.lean", "SimbodyModel/ForceLawsDriver.lean",
              "SimbodyProofs/ForceLaws_lemmas.lean", "SimbodyProofs/C38.lean", "Drivers/C38.lean"],
     lake_targets=["SimbodyProofs.ForceLaws_lemmas"],
     n=dict(quick=700, thorough=42000),
     modes=["c38", "c38deg", "c38param"],
     rtol=1e-9, atol=1e-12,
-    rule="per mode, VERIF_SEED-derived: mode c38 cycles through the 15 element kinds (TwoPointLinearSpring/Damper/ConstantForce, CableSpring tension law on a straight path, "
+    rule="per mode, VERIF_SEED-derived: mode c38 cycles through the 16 element kinds (incl. DiscreteForces: what is set is what is applied) (TwoPointLinearSpring/Damper/ConstantForce, CableSpring tension law on a straight path, "
          "ConstantForce/Torque, MobilityLinearSpring/Damper/ConstantForce/DiscreteForce/LinearStop, GlobalDamper, UniformGravity, "
          "Gravity with exclusions, LinearBushing) on random trees of 1-4 bodies (Free/Pin/Slider/Ball, random frames, random q,u), "
-         "random parameters; c38deg = coincident stations; c38param = 20 kinds of parameter/enable/exclusion change between two "
+         "random parameters; c38deg = coincident stations; c38param = 30 kinds of parameter/default/enable/exclusion change (state-level setters after realize; setDefault*/topology-level setters followed by realizeTopology, compared with an independently constructed system) between two "
          "realizations compared with a fresh State; distinct = distinct input records",
     partial="Force::Thermostat and Force::Custom are not modelled; CableSpring: the tension/energy/power-loss law on the path length is "
             "modelled and proved (cable_law_eq_doc), the path geometry (straight path only in the harness) is CablePath's (C45); "
             "LinearBushing's Euler-angle extraction (libm atan2) is taken from the implementation (getQ) and only checked for "
             "consistency with the model's own R_FM; the clause 'changes take effect at the next realization' is proved for the abstract "
-            "force-cache model (param_change_effective_next_realize) and checked per element on the implementation (P lines of mode "
-            "c38param, 20 kinds of change); UniformGravity's PE: the pinned tree deviated from the documentation (fixed in /repo 5f9a9c23; "
+            "force-cache model (param_change_effective_next_realize), instantiated for EVERY ForceImpl subclass of the current source through "
+            "the regenerated table (param_table_ok by decide, param_change_effective_all_classes; Force::Custom delegates to user code and "
+            "is excluded), and checked per element on the implementation (P lines of mode c38param, 30 kinds of change); the abstract "
+            "cache is a two-line model of GeneralForceSubsystem's cachedForcesAreValid protocol - the full protocol is C16's model; UniformGravity's PE: the pinned tree deviated from the documentation (fixed in /repo 5f9a9c23; "
             "uniformGravity_pe_eq_doc is now unconditional, the P line UniformGravity.zeroHeight.pe_eq_doc keeps watching it)",
     assumptions=["libm sqrt/cos/sin are trusted (sqrt enters the model as a function parameter)",
                  "the 'documented law' definitions (doc* in SimbodyModel/ForceLaws.lean) are a hand transcription of the header comments"],
